@@ -1,51 +1,200 @@
 import NumbersModel.Drv.Proto
+import NumbersModel.Drv.Loader
 import NumbersModel.Model.Csv
+import NumbersModel.Model.CsvCodec
+import NumbersModel.Model.CsvMain
 namespace NumbersModel.Drv
 open NumbersModel NumbersModel.Csv
 
-/-- `csv convert <noHeader> <reverse> <ws> <nrows> <ncols> (<text> <norm> <cls>)*`
-    cls (of the text that `float()` sees, i.e. the normalised one under --whitespace):
-    `V` ValueError, `F<k>` finite value number k, `N` nan, `I` ±inf.
-    reply: rows joined by `|`, cells by space; a number cell prints `#k`. -/
-def parseCls (w : String) : Option (FloatCls Nat) :=
-  if w == "V" then some .valueError
-  else if w == "N" then some .nan
-  else if w == "I" then some .inf
-  else if w.startsWith "F" then (w.drop 1).toNat?.map .finite
-  else none
+/-
+Driver arm for the C20 models.
 
-def parseCells : Nat → List String → List (Text × Text × FloatCls Nat) → Option (List (Text × Text × FloatCls Nat))
-  | 0, [], acc => some acc.reverse
-  | 0, _ :: _, _ => none
-  | n + 1, t :: nm :: c :: rest, acc => do
-    let t ← parseText t; let nm ← parseText nm; let c ← parseCls c
-    parseCells n rest ((t, nm, c) :: acc)
-  | _, _, _ => none
+  csv csvw <grid>                                  `csv.writer` text of a grid                     (CsvCodec.writeGrid)
+  csv csvr <strict> <limit> <text>                 `csv.reader` over a newline="" file            (CsvCodec.readGrid)
+  csv csvrl <strict> <limit> <n> <line>*           `csv.reader` over a list of line strings       (CsvCodec.readLineList)
+  csv csvlines <text>                              lines of a newline="" file                     (CsvCodec.splitLines)
+  csv convert <nh> <rv> <ws> <grid> table <table>  rows after import + export (numbers print `#k`) (Csv.convert, padTable)
+  csv ie <nh> <rv> <ws> <strict> <limit> <text> table <table>      text printed by the export       (Csv.importExport)
+  csv main <f|p> <nh> <rv> <ws> <version> <outputs -|n> <helpLines>
+           cls <fnf> <csv> <os> <uni> <lookup> <rt>      each `<n> <name>*`
+           files <nf> { <derive ok|!E> <open !E | T <text> <fail -|!E>> <limit> <doc ok|!E>
+                        <nw> { <r> <c> !E }*nw <save ok|!E> table <table> }*nf                  (CsvMain.main)
+  <grid>  = <nrows> { <ncells> <text>* }*nrows
+  <table> = <n> { <text> <norm> <cls> }*n     cls of the text `float()` sees (the normalised one under --whitespace):
+            `V` ValueError, `N` nan, `I` ±inf, `F<k>:<text>` finite value number k, printed as <text> by the exporter
+-/
+structure CellInfo where
+  text : Text
+  norm : Text
+  cls : FloatCls Nat
+  render : Text
 
-def chunk {α} : Nat → Nat → List α → List (List α)
-  | 0, _, _ => []
-  | r + 1, w, l => l.take w :: chunk r w (l.drop w)
+def clsP : LP (FloatCls Nat × Text) := do
+  let w ← tok
+  if w == "V" then pure (.valueError, [])
+  else if w == "N" then pure (.nan, [])
+  else if w == "I" then pure (.inf, [])
+  else if w.startsWith "F" then
+    match (w.drop 1).toString.splitOn ":" with
+    | [k, r] =>
+      match k.toNat?, parseText r with
+      | some k, some r => pure (.finite k, r)
+      | _, _ => failure
+    | _ => failure
+  else failure
+
+def tableP : LP (List CellInfo) := do
+  expect "table"
+  let n ← natTok
+  repeatP (do
+    let t ← textTok; let nm ← textTok; let (c, r) ← clsP
+    pure ⟨t, nm, c, r⟩) n
+
+def gridP : LP (List (List Text)) := do
+  let nr ← natTok
+  repeatP (do let k ← natTok; repeatP textTok k) nr
+
+def boolTok : LP Bool := do
+  let t ← tok
+  match parseBool t with
+  | some b => pure b
+  | none => failure
+
+def tblFloat (ws : Bool) (cells : List CellInfo) (v : Text) : FloatCls Nat :=
+  match cells.find? (fun c => (if ws then c.norm else c.text) = v) with
+  | some c => c.cls
+  | none => .valueError
+
+def tblNorm (cells : List CellInfo) (v : Text) : Text :=
+  match cells.find? (fun c => c.text = v) with
+  | some c => c.norm
+  | none => v
+
+def tblRender (cells : List CellInfo) (k : Nat) : Text :=
+  match cells.find? (fun c => match c.cls with | .finite k' => k' = k | _ => false) with
+  | some c => c.render
+  | none => '?' :: natStr k
+
+def csvShowGrid (g : List (List Text)) : String :=
+  " ".intercalate (g.map fun row => "[" ++ " ".intercalate (row.map showText) ++ "]")
+
+def csvShowGridM : PyM (List (List Text)) → String
+  | .ok g => if g.isEmpty then "ok" else "ok " ++ csvShowGrid g
+  | .error e => showExc e
+
+def excRes : LP (Option PyExc) := do
+  let t ← tok
+  if t == "-" || t == "ok" then pure none
+  else if t.startsWith "!" then pure (some (excOfName (t.drop 1).toString)) else failure
+
+def namesP : LP (List PyExc) := do
+  let n ← natTok
+  repeatP (do let t ← tok; pure (excOfName t)) n
+
+def fileP : LP (CsvMain.FileExt Nat × List CellInfo) := do
+  let derive ← unitRes
+  let t ← tok
+  let openFile : PyM CsvMain.Content ←
+    if t == "T" then do
+      let text ← textTok
+      let fail ← excRes
+      pure (.ok ⟨text, fail⟩)
+    else if t.startsWith "!" then pure (.error (excOfName (t.drop 1).toString)) else failure
+  let limit ← natTok
+  let doc ← unitRes
+  let nw ← natTok
+  let wf ← repeatP (do
+    let r ← natTok; let c ← natTok; let e ← excRes
+    pure (r, c, e)) nw
+  let save ← unitRes
+  let cells ← tableP
+  pure ({ deriveOutput := derive, openFile := openFile, fieldLimit := limit,
+          pyFloat := fun _ => .valueError, norm := tblNorm cells,
+          newDocument := fun _ _ => doc,
+          write := fun r c _ => match wf.find? (fun w => w.1 = r ∧ w.2.1 = c) with
+            | some (_, _, some e) => .error e
+            | _ => .ok (),
+          saveDoc := save }, cells)
+
+def mainP : LP String := do
+  let vt ← tok
+  let v ← if vt == "f" then pure CsvMain.fixed else if vt == "p" then pure CsvMain.pinned else failure
+  let nh ← boolTok; let rv ← boolTok; let ws ← boolTok
+  let version ← boolTok
+  let ot ← tok
+  let outputs : Option Nat ← if ot == "-" then pure none else match ot.toNat? with
+    | some n => pure (some n)
+    | none => failure
+  let helpLines ← natTok
+  expect "cls"
+  let fnf ← namesP; let ce ← namesP; let os ← namesP; let uni ← namesP; let lk ← namesP; let rt ← namesP
+  expect "files"
+  let nf ← natTok
+  let files ← repeatP fileP nf
+  let rest ← get
+  if !rest.isEmpty then failure
+  let c : CsvMain.Classes := ⟨fun e => fnf.contains e, fun e => ce.contains e, fun e => os.contains e,
+    fun e => uni.contains e, fun e => lk.contains e, fun e => rt.contains e⟩
+  let fs := files.map fun (x, cells) => { x with pyFloat := tblFloat ws cells }
+  pure (match CsvMain.main v c ⟨nh, rv, ws⟩ ⟨version, outputs, helpLines⟩ fs with
+    | .ok o => s!"ok {o.exit} {o.stdoutLines} {o.stderrLines}"
+    | .error e => showExc e)
+
+def marker : Char := Char.ofNat 0xE000
+
+def convertP : LP String := do
+  let nh ← boolTok; let rv ← boolTok; let ws ← boolTok
+  let grid ← gridP
+  let cells ← tableP
+  let rest ← get
+  if !rest.isEmpty then failure
+  let showCell (t : Text) : String := match t with
+    | c :: r => if c = marker then "#" ++ String.ofList r else showText t
+    | [] => showText t
+  pure (match convert (tblFloat ws cells) (tblNorm cells) ⟨nh, rv, ws⟩ grid with
+    | .error e => showExc e
+    | .ok table =>
+      let out := exportGrid (fun k => marker :: natStr k) (padTable table)
+      "ok " ++ " ".intercalate (out.map fun row => "[" ++ " ".intercalate (row.map showCell) ++ "]"))
+
+def ieP : LP String := do
+  let nh ← boolTok; let rv ← boolTok; let ws ← boolTok
+  let strict ← boolTok; let limit ← natTok
+  let text ← textTok
+  let cells ← tableP
+  let rest ← get
+  if !rest.isEmpty then failure
+  pure (showPyM showText
+    (importExport ⟨strict, limit, none⟩ (tblFloat ws cells) (tblNorm cells) (tblRender cells) ⟨nh, rv, ws⟩ text))
+
+def runLP (p : LP String) (ws : List String) : Option String :=
+  match p.run ws with
+  | some (s, _) => some s
+  | none => none
 
 def handleCsv : List String → Option String
-  | "convert" :: nh :: rv :: ws :: nr :: nc :: rest => do
-    let nh ← parseBool nh; let rv ← parseBool rv; let ws ← parseBool ws
-    let nr ← nr.toNat?; let nc ← nc.toNat?
-    let cells ← parseCells (nr * nc) rest []
-    let eff (c : Text × Text × FloatCls Nat) : Text := if ws then c.2.1 else c.1
-    let pyFloat (v : Text) : FloatCls Nat :=
-      match cells.find? (fun c => eff c = v) with
-      | some c => c.2.2
-      | none => .valueError
-    let norm (v : Text) : Text :=
-      match cells.find? (fun c => c.1 = v) with
-      | some c => c.2.1
-      | none => v
-    let grid := chunk nr nc (cells.map (·.1))
-    let out := exportGrid (fun k => (Char.ofNat 0xE000 :: natStr k)) (convert pyFloat norm ⟨nh, rv, ws⟩ grid)
-    let showCell (t : Text) : String := match t with
-      | c :: r => if c = Char.ofNat 0xE000 then "#" ++ String.ofList r else showText t
-      | [] => showText t
-    pure ("ok " ++ "|".intercalate (out.map fun row => " ".intercalate (row.map showCell)))
+  | "csvw" :: rest => runLP (do
+      let g ← gridP
+      let r ← get
+      if !r.isEmpty then failure
+      pure ("ok " ++ showText (CsvCodec.writeGrid g))) rest
+  | ["csvr", strict, limit, t] => do
+    let strict ← parseBool strict; let limit ← limit.toNat?; let t ← parseText t
+    pure (csvShowGridM (CsvCodec.readGrid ⟨strict, limit, none⟩ t))
+  | "csvrl" :: strict :: limit :: n :: rest => do
+    let strict ← parseBool strict; let limit ← limit.toNat?; let n ← n.toNat?
+    runLP (do
+      let lines ← repeatP textTok n
+      let r ← get
+      if !r.isEmpty then failure
+      pure (csvShowGridM (CsvCodec.readLineList ⟨strict, limit, none⟩ lines))) rest
+  | ["csvlines", t] => do
+    let t ← parseText t
+    let ls := CsvCodec.splitLines t
+    pure (if ls.isEmpty then "ok" else "ok " ++ " ".intercalate (ls.map showText))
+  | "convert" :: rest => runLP convertP rest
+  | "ie" :: rest => runLP ieP rest
+  | "main" :: rest => runLP mainP rest
   | _ => none
 
 end NumbersModel.Drv
